@@ -25,7 +25,7 @@ func c25hexkv(k, v []byte) string { return hx(k) + "=" + hx(v) }
 
 // C25: histories over one raw storage with several prefix storages whose prefixes look alike.
 func runC25(c *Ctx) error {
-	prefixes := [][]byte{[]byte("ab"), {'a', 'b', 0}, {'a', 'b', 0xff}, []byte("b"), {0xff, 0xff}, {'a'}}
+	prefixes := [][]byte{[]byte("ab"), {'a', 'b', 0}, {'a', 'b', 0xff}, []byte("b"), {0xff, 0xff}, {'a'}, []byte("ac"), {'a', 0xff}}
 	nhist := 300
 	if c.Thorough() {
 		nhist = 12000
